@@ -229,6 +229,9 @@ func Goroutines() []string {
 	return strings.Split(string(buf), "\n\n")
 }
 
+// BackendFrames identify goroutines that are inside backend code.
+var BackendFrames = []string{"fsnotify.(*inotify).", "fsnotify.(*shared)."}
+
 // FsnotifyGoroutines returns the stacks of goroutines running backend code
 // (frames of the inotify type), excluding the caller.
 func FsnotifyGoroutines() []string {
@@ -237,8 +240,11 @@ func FsnotifyGoroutines() []string {
 		if i == 0 {
 			continue // the calling goroutine
 		}
-		if strings.Contains(g, "fsnotify.(*inotify).") || strings.Contains(g, "fsnotify.(*shared).") {
-			out = append(out, g)
+		for _, f := range BackendFrames {
+			if strings.Contains(g, f) {
+				out = append(out, g)
+				break
+			}
 		}
 	}
 	return out
